@@ -262,6 +262,21 @@ fn limit_case(g: &mut Gen, ctx: &mut Ctx) -> CaseResult {
     ctx.classf(format!("limit:{}:{}", d, if ok_untagged { "accepted-untagged" } else { "rejected-untagged" }));
     ctx.nontrivial(hash_bytes(&[t.kind.name().as_bytes(), &[d as u8]].concat()));
     ctx.sample_with(|| format!("{} body nested {} deep ({} untagged)", t.kind.name(), d, if ok_untagged { "accepted" } else { "rejected" }));
+    // encode direction at the limit: whatever value the untagged decoder hands out, its tagged
+    // encoding is the registered tag applied once to its untagged encoding
+    if let Some((plain, tagged)) = (t.both)(&body) {
+        let mut want = vec![];
+        head(&mut want, 6, t.tag);
+        match (plain, tagged) {
+            (Ok(p), Ok(tg)) => {
+                want.extend_from_slice(&p);
+                ensure!(tg == want, "{}: to_tagged_vec of a decoded value nested {} deep is not the tag applied to to_vec: {} vs {}", t.kind.name(), d, hex_trunc(&tg, 16), hex_trunc(&want, 16));
+            }
+            (Ok(_), Err(e)) => fail!("{}: to_vec of a decoded value nested {} deep succeeds but to_tagged_vec fails ({:?}): the tagged encoding is not the tag applied to the untagged encoding", t.kind.name(), d, e),
+            (Err(e), Ok(_)) => fail!("{}: to_tagged_vec of a decoded value nested {} deep succeeds but to_vec fails ({:?})", t.kind.name(), d, e),
+            (Err(_), Err(_)) => {}
+        }
+    }
     // no tag, a wrong tag, non-tag heads carrying the tag number
     ensure!((t.tagged)(&body).is_err(), "from_tagged_slice accepted an untagged body nested {} deep", d);
     for (what, x) in [
